@@ -185,9 +185,15 @@ Definition model_hist (c : hcase) : hmodel :=
     | [] => mkHM true 0 (-1) [] [] (-1) (-1)
     end.
 
+(* a history that completes a handshake leaves the part of handleTCP ported here (the
+   model answers RBeyond; C14 models that part): the theorems still say that nothing is
+   fatal and that the UDP path is unaffected, so liveness and the reported datagrams are
+   compared, the per-frame returns / occupancy / transmissions are not *)
 Definition h_agree (c : hcase) : bool :=
   let m := model_hist c in
-  negb (m_beyond m) &&
+  if m_beyond m then
+    (h_fatal c =? 0) && (h_rep c =? 0) && evs_same (m_events m) (h_events c)
+  else
   (m_fatal m =? h_fatal c) &&
   ((h_mode c =? 1) || (m_fatal_at m =? h_fatal_at c)) &&
   ((h_mode c =? 1) || negb (h_rep c =? 0) || zs_eqb (m_rets m) (h_rets c)) &&
@@ -201,9 +207,11 @@ Definition h_mismatches (cs : list hcase) : list N :=
 (* the property on the implementation's own observation: the process survived the
    history and the probe's event was delivered with the probe's addresses and payload *)
 Definition SIG_PROBE_LOST := 10%N.
+Definition SIG_HANG := 11%N.        (* a frame was not processed within the bounded wait *)
 Definition h_sig (c : hcase) : N :=
   if negb (h_fatal c =? 0) then
-    (if (1 <=? h_fatal c) && (h_fatal c <=? 5) then Z.to_N (h_fatal c) else 90%N)
+    (if (1 <=? h_fatal c) && (h_fatal c <=? 5) then Z.to_N (h_fatal c)
+     else if h_fatal c =? 11 then SIG_HANG else 90%N)
   else if ev_mem (h_probe c) (h_events c) then 0%N else SIG_PROBE_LOST.
 
 Definition h_violations (cs : list hcase) : list (N * N) :=
@@ -216,3 +224,90 @@ Definition h_tags (cs : list hcase) : list (N * N) :=
     else if h_count c >? 0 then 2%N
     else if zlen (h_events c) >? 1 then 4%N
     else if zlen (h_frames c) >? 1 then 8%N else 0%N)) cs.
+
+(* ------------------------------------------------------------------ part "table" *)
+(* operation histories on the real canary.StateTable (Add / Get / Remove, State.State
+   mutations; fresh entries from Canary.NewState, expired ones with a zero time). *)
+Record tcase := mkTC {
+  tc_id : N;
+  tc_cap : Z;                       (* 65535: the array length *)
+  tc_ops : list (Z * top);          (* (time ms, operation) *)
+  tc_obs : list (list Z);           (* observed result of every completed operation *)
+  tc_panic_at : Z;                  (* index of the operation that panicked, -1 none *)
+  tc_panic_fn : Z                   (* 1 Add, 2 Get, 3 Remove, 9 other *)
+}.
+
+(* OFill on a table without reusable slot and with room for all n entries appends them
+   (Proofs.fill_fast_eq); used so that filling 65,535 slots is linear in the checker *)
+Fixpoint fast_entries (now : Z) (e : espec) (i : Z) (n : nat) : table :=
+  match n with
+  | O => []
+  | S n' => Some (tcb_of_spec (spec_shift e i) now) :: fast_entries now e (i + 1) n'
+  end.
+
+Definition fill_model (cap : Z) (t : table) (now : Z) (e : espec) (n : nat) : Z * Z * Z * table :=
+  match find_free t O, n with
+  | None, S _ =>
+      if (zlen t + Z.of_nat n <=? cap) && negb (es_state e =? S_TIMEWAIT)
+      then (Z.of_nat n, zlen t, zlen t + Z.of_nat n - 1, t ++ fast_entries now e 0 n)
+      else fill_iter cap t now e 0 n 0 (-1) (-1)
+  | _, _ => fill_iter cap t now e 0 n 0 (-1) (-1)
+  end.
+
+Definition top_step_fast (cap : Z) (t : table) (now : Z) (o : top) : list Z * table :=
+  match o with
+  | OFill n e => let '(ok, first, last, t') := fill_model cap t now e n in ([ok; first; last], t')
+  | _ => top_step cap t now o
+  end.
+
+Fixpoint top_run_fast (cap : Z) (t : table) (ops : list (Z * top)) : list (list Z) * table :=
+  match ops with
+  | [] => ([], t)
+  | (now, o) :: r =>
+      let '(ob, t1) := top_step_fast cap t now o in
+      let '(obs, t2) := top_run_fast cap t1 r in (ob :: obs, t2)
+  end.
+
+Fixpoint zss_eqb (a b : list (list Z)) : bool :=
+  match a, b with
+  | [], [] => true
+  | x :: a', y :: b' => zs_eqb x y && zss_eqb a' b'
+  | _, _ => false
+  end.
+
+Definition t_agree (c : tcase) : bool :=
+  (tc_panic_at c <? 0) && zss_eqb (fst (top_run_fast (tc_cap c) [] (tc_ops c))) (tc_obs c).
+
+Definition t_mismatches (cs : list tcase) : list N :=
+  map tc_id (filter (fun c => negb (t_agree c)) cs).
+
+(* the property on the implementation's own observation: no table operation panics; a
+   slot handed out by Add lies inside the array; the occupancy never exceeds its length *)
+Fixpoint obs_in_range (cap : Z) (ops : list (Z * top)) (obs : list (list Z)) : bool :=
+  match ops, obs with
+  | (_, OAdd _) :: r, [okf; s] :: r' =>
+      (if okf =? 1 then (0 <=? s) && (s <? cap) else s =? -1) && obs_in_range cap r r'
+  | (_, OFill n _) :: r, [ok; f; l] :: r' =>
+      (0 <=? ok) && (ok <=? Z.of_nat n) &&
+      (if ok =? 0 then true else (0 <=? f) && (f <? cap) && (0 <=? l) && (l <? cap)) && obs_in_range cap r r'
+  | (_, OGet _ _ _ _) :: r, [s] :: r' => (-1 <=? s) && (s <? cap) && obs_in_range cap r r'
+  | (_, OCount) :: r, [n] :: r' => (0 <=? n) && (n <=? cap) && obs_in_range cap r r'
+  | _ :: r, _ :: r' => obs_in_range cap r r'
+  | _, _ => true
+  end.
+
+Definition t_sig (c : tcase) : N :=
+  if 0 <=? tc_panic_at c then
+    (if (1 <=? tc_panic_fn c) && (tc_panic_fn c <=? 3) then Z.to_N (tc_panic_fn c) else 9%N)
+  else if obs_in_range (tc_cap c) (tc_ops c) (tc_obs c) then 0%N else 4%N.
+
+Definition t_violations (cs : list tcase) : list (N * N) :=
+  flat_map (fun c => let s := t_sig c in if (s =? 0)%N then [] else [(tc_id c, s)]) cs.
+
+(* 1 an Add was refused (table full of live entries), 2 the table reached its capacity,
+   4 several operations *)
+Definition t_tags (cs : list tcase) : list (N * N) :=
+  map (fun c => (tc_id c,
+    if existsb (fun ob => match ob with [0; -1] => true | _ => false end) (tc_obs c) then 1%N
+    else if existsb (fun ob => match ob with [n] => n =? tc_cap c | [_; _; l] => l =? tc_cap c - 1 | _ => false end) (tc_obs c) then 2%N
+    else if zlen (tc_ops c) >? 1 then 4%N else 0%N)) cs.
